@@ -8,34 +8,18 @@ import Optyx.Generated.PinsC13
 namespace Optyx.Props.PinsC13
 open Optyx.Generated.PinsC13
 
-/-- `Problem.__init__` (problem.py) -/
-theorem pin_problem_Problem__init_anchor : pin_problem_Problem__init = "b8e52e8b31ddb817" := rfl
-/-- `Problem._invalidate_caches` (problem.py) -/
-theorem pin_problem_Problem_invalidate_caches_anchor : pin_problem_Problem_invalidate_caches = "d41655a6188482c1" := rfl
-/-- `Problem.minimize` (problem.py) -/
-theorem pin_problem_Problem_minimize_anchor : pin_problem_Problem_minimize = "9a4f17026f83d644" := rfl
-/-- `Problem.maximize` (problem.py) -/
-theorem pin_problem_Problem_maximize_anchor : pin_problem_Problem_maximize = "ab5e9d027ebfd2b7" := rfl
-/-- `Problem.subject_to` (problem.py) -/
-theorem pin_problem_Problem_subject_to_anchor : pin_problem_Problem_subject_to = "727808edd19107ef" := rfl
 /-- `Problem._validate_expression` (problem.py) -/
 theorem pin_problem_Problem_validate_expression_anchor : pin_problem_Problem_validate_expression = "c1cde4a100b85f9c" := rfl
 /-- `Problem._validate_constraint` (problem.py) -/
 theorem pin_problem_Problem_validate_constraint_anchor : pin_problem_Problem_validate_constraint = "86c81ec384d8e567" := rfl
-/-- `Problem._is_linear_problem` (problem.py) -/
-theorem pin_problem_Problem_is_linear_problem_anchor : pin_problem_Problem_is_linear_problem = "ef383bb402f0c8fd" := rfl
 /-- `Problem._only_simple_bounds` (problem.py) -/
 theorem pin_problem_Problem_only_simple_bounds_anchor : pin_problem_Problem_only_simple_bounds = "db45e87281100d80" := rfl
 /-- `Problem._has_equality_constraints` (problem.py) -/
 theorem pin_problem_Problem_has_equality_constraints_anchor : pin_problem_Problem_has_equality_constraints = "56258a35419a78c5" := rfl
 /-- `Problem.variables` (problem.py) -/
 theorem pin_problem_Problem_variables_anchor : pin_problem_Problem_variables = "d9cf95cb5e4c92ed" := rfl
-/-- `Problem.n_variables` (problem.py) -/
-theorem pin_problem_Problem_n_variables_anchor : pin_problem_Problem_n_variables = "0dbdcb3cb885b8be" := rfl
 /-- `Problem.n_constraints` (problem.py) -/
 theorem pin_problem_Problem_n_constraints_anchor : pin_problem_Problem_n_constraints = "f1d7283affcc2213" := rfl
-/-- `Problem.get_bounds` (problem.py) -/
-theorem pin_problem_Problem_get_bounds_anchor : pin_problem_Problem_get_bounds = "ec4559e6c7b7b9a1" := rfl
 /-- `Problem.summary` (problem.py) -/
 theorem pin_problem_Problem_summary_anchor : pin_problem_Problem_summary = "bbcdac853c42d5a8" := rfl
 /-- `Problem.objective` (problem.py) -/
@@ -54,7 +38,7 @@ theorem pin_scipy_solver_solve_scipy_anchor : pin_scipy_solver_solve_scipy = "e7
 theorem pin_lp_solver_solve_lp_anchor : pin_lp_solver_solve_lp = "244fed8ae6b2b560" := rfl
 
 /-- every function the model of C13 transcribes (and no translator covers) is the one it was read from -/
-theorem anchors : pin_problem_Problem__init = "b8e52e8b31ddb817" ∧ pin_problem_Problem_invalidate_caches = "d41655a6188482c1" ∧ pin_problem_Problem_minimize = "9a4f17026f83d644" ∧ pin_problem_Problem_maximize = "ab5e9d027ebfd2b7" ∧ pin_problem_Problem_subject_to = "727808edd19107ef" ∧ pin_problem_Problem_validate_expression = "c1cde4a100b85f9c" ∧ pin_problem_Problem_validate_constraint = "86c81ec384d8e567" ∧ pin_problem_Problem_is_linear_problem = "ef383bb402f0c8fd" ∧ pin_problem_Problem_only_simple_bounds = "db45e87281100d80" ∧ pin_problem_Problem_has_equality_constraints = "56258a35419a78c5" ∧ pin_problem_Problem_variables = "d9cf95cb5e4c92ed" ∧ pin_problem_Problem_n_variables = "0dbdcb3cb885b8be" ∧ pin_problem_Problem_n_constraints = "f1d7283affcc2213" ∧ pin_problem_Problem_get_bounds = "ec4559e6c7b7b9a1" ∧ pin_problem_Problem_summary = "bbcdac853c42d5a8" ∧ pin_problem_Problem_objective = "dccb3b4cfb408f6b" ∧ pin_problem_Problem_sense = "f8a0868e8e21138d" ∧ pin_problem_Problem_constraints = "c96f1212141cb5da" ∧ pin_problem_Problem_solve = "f4e2acd2b640d4bc" ∧ pin_autodiff_increased_recursion_limit = "7a8553786ac9be91" ∧ pin_scipy_solver_solve_scipy = "e7c69a3a73fa09d9" ∧ pin_lp_solver_solve_lp = "244fed8ae6b2b560" :=
-  ⟨pin_problem_Problem__init_anchor, pin_problem_Problem_invalidate_caches_anchor, pin_problem_Problem_minimize_anchor, pin_problem_Problem_maximize_anchor, pin_problem_Problem_subject_to_anchor, pin_problem_Problem_validate_expression_anchor, pin_problem_Problem_validate_constraint_anchor, pin_problem_Problem_is_linear_problem_anchor, pin_problem_Problem_only_simple_bounds_anchor, pin_problem_Problem_has_equality_constraints_anchor, pin_problem_Problem_variables_anchor, pin_problem_Problem_n_variables_anchor, pin_problem_Problem_n_constraints_anchor, pin_problem_Problem_get_bounds_anchor, pin_problem_Problem_summary_anchor, pin_problem_Problem_objective_anchor, pin_problem_Problem_sense_anchor, pin_problem_Problem_constraints_anchor, pin_problem_Problem_solve_anchor, pin_autodiff_increased_recursion_limit_anchor, pin_scipy_solver_solve_scipy_anchor, pin_lp_solver_solve_lp_anchor⟩
+theorem anchors : pin_problem_Problem_validate_expression = "c1cde4a100b85f9c" ∧ pin_problem_Problem_validate_constraint = "86c81ec384d8e567" ∧ pin_problem_Problem_only_simple_bounds = "db45e87281100d80" ∧ pin_problem_Problem_has_equality_constraints = "56258a35419a78c5" ∧ pin_problem_Problem_variables = "d9cf95cb5e4c92ed" ∧ pin_problem_Problem_n_constraints = "f1d7283affcc2213" ∧ pin_problem_Problem_summary = "bbcdac853c42d5a8" ∧ pin_problem_Problem_objective = "dccb3b4cfb408f6b" ∧ pin_problem_Problem_sense = "f8a0868e8e21138d" ∧ pin_problem_Problem_constraints = "c96f1212141cb5da" ∧ pin_problem_Problem_solve = "f4e2acd2b640d4bc" ∧ pin_autodiff_increased_recursion_limit = "7a8553786ac9be91" ∧ pin_scipy_solver_solve_scipy = "e7c69a3a73fa09d9" ∧ pin_lp_solver_solve_lp = "244fed8ae6b2b560" :=
+  ⟨pin_problem_Problem_validate_expression_anchor, pin_problem_Problem_validate_constraint_anchor, pin_problem_Problem_only_simple_bounds_anchor, pin_problem_Problem_has_equality_constraints_anchor, pin_problem_Problem_variables_anchor, pin_problem_Problem_n_constraints_anchor, pin_problem_Problem_summary_anchor, pin_problem_Problem_objective_anchor, pin_problem_Problem_sense_anchor, pin_problem_Problem_constraints_anchor, pin_problem_Problem_solve_anchor, pin_autodiff_increased_recursion_limit_anchor, pin_scipy_solver_solve_scipy_anchor, pin_lp_solver_solve_lp_anchor⟩
 
 end Optyx.Props.PinsC13
